@@ -6,7 +6,6 @@ package main
 import (
 	"fmt"
 	"go/ast"
-	"go/constant"
 	"go/token"
 	"sort"
 	"strings"
@@ -138,24 +137,6 @@ func (x *extractor) genExprs() {
 		for k, v := range literalFields(api, fd, "robust.Message") {
 			put("delete.msg."+k, v)
 		}
-	}
-	if fd := findFunc(api, "", "firstLine"); fd != nil {
-		// the whole (five-line) body, normalised: the Lean definition `firstLine` is a transcription of exactly this
-		put("firstLine.body", strings.Join(strings.Fields(stmtString(api.Fset, fd.Body)), " "))
-		ast.Inspect(fd.Body, func(n ast.Node) bool {
-			if c, ok := n.(*ast.CallExpr); ok && strings.Contains(exprString(api.Fset, c.Fun), "IndexAny") && len(c.Args) == 2 {
-				if tv, ok := api.TypesInfo.Types[c.Args[1]]; ok && tv.Value != nil && tv.Value.Kind() == constant.String {
-					put("firstLine.cutset", constant.StringVal(tv.Value))
-					put("firstLine.scanned", exprString(api.Fset, c.Args[0]))
-				}
-			}
-			if r, ok := n.(*ast.ReturnStmt); ok && len(r.Results) == 1 {
-				if _, isSlice := r.Results[0].(*ast.SliceExpr); isSlice {
-					put("firstLine.cut", exprString(api.Fset, r.Results[0]))
-				}
-			}
-			return true
-		})
 	}
 	if fd := findFunc(api, "HTTP", "applyConfig"); fd != nil {
 		conds := ifConds(api, fd)
